@@ -168,6 +168,25 @@ def catalogue(chk, deb, btcc, tap):
     for sc in scripts:
         for sq in (seqs if not quick else seqs[: len(seqs)]):
             repl("repl-seq", sc, sq)
+    # keep going after errors: the REPL lets the user step / rewind / exec on after a failed step; whatever that reaches, it must not crash
+    for typ in gen_spend.TYPES:
+        for mut in ("empty-scriptsig", "empty-witness", "wrong-key", "valid"):
+            c = gen_spend.SpendCase(rng, typ, "wrong-key" if mut == "wrong-key" else "valid", 1, 0, 0)
+            if mut == "empty-scriptsig": c.tx.vin[0].script_sig = b""
+            if mut == "empty-witness" and c.tx.witness and c.tx.witness[0]: c.tx.witness[0] = [b""] * len(c.tx.witness[0])
+            argv = ["--tx=" + c.tx.hex(), "--txin=" + c.funding.hex()]
+            repl("repl-past-errors", argv, ["step"] * 30)
+            repl("repl-past-errors", argv, (["step"] * 3 + ["rewind"]) * 8 + ["step"] * 12 + ["rewind"] * 40)
+    for sc in (["[OP_ADD OP_ADD OP_1]"], ["[OP_0 OP_VERIFY OP_IF OP_ENDIF OP_ENDIF OP_1]"], ["[OP_1 OP_IF OP_RETURN OP_ELSE OP_ELSE OP_ENDIF OP_FROMALTSTACK OP_2DROP OP_1]"],
+               ["[OP_CHECKMULTISIG OP_CHECKSIG OP_CHECKSIGADD OP_1]"], ["[0x0102030405 OP_1ADD OP_PICK OP_ROLL OP_1]"]):
+        repl("repl-past-errors", sc, ["step"] * 12 + ["rewind"] * 14 + ["step"] * 12)
+    # transactions of degenerate shape
+    for txh in ("01000000000000000000", "0100000000010000000000", "010000000001000000000000", "02000000000100000000000000", "0100000001" + "00" * 36 + "00ffffffff0000000000",
+                "01000000" + "00" * 200, "ffffffff" * 20):
+        cli("tx-degenerate", "btcdeb", ["--tx=" + txh], stdin_data=b"[OP_1]\n", stdin_tty=False)
+        cli("tx-degenerate", "btcdeb", ["--tx=" + txh, "--txin=" + spends["p2pkh"][1]])
+        cli("tx-degenerate", "btcdeb", ["--tx=" + spends["p2pkh"][0], "--txin=" + txh])
+        cli("tx-degenerate", "tap", ["--tx=" + txh, "--txin=" + txh, "79be667ef9dcbbac55a06295ce870b07029bfcdb2dce28d959f2815b16f81798", "1", "51", "0"])
     return cases
 
 
